@@ -360,12 +360,102 @@ pub fn run_lone(ops: &[(Op, Fault)], variant: u64) -> Option<String> {
     None
 }
 
-pub const SHAPE_NAMES: [&str; 8] = [
+/// A remote proxy that itself marks only some of its fields, and a struct whose excluded field
+/// names are substrings of the marked ones (`id` in `width`, `x` in `max_x`).
+pub mod marked_remote {
+    use mina::prelude::*;
+
+    /// (a second remote target type: two proxies for one remote type cannot share a module,
+    /// the generated names derive from the remote type's name)
+    #[derive(Clone, Debug, Default, PartialEq)]
+    pub struct Panel {
+        pub before: u32,
+        pub x: f32,
+        pub between: f32,
+        pub size: u16,
+        pub after: i64,
+    }
+
+    #[derive(Animate)]
+    #[animate(remote = "Panel")]
+    #[allow(dead_code)]
+    pub struct PanelProxy {
+        #[animate]
+        x: f32,
+        size: u16,
+        between: f32,
+    }
+}
+use marked_remote::{Panel, PanelProxy};
+
+#[derive(Animate, Clone, Debug, Default, PartialEq)]
+pub struct Substr {
+    #[animate]
+    pub width: f32,
+    pub id: u32,
+    #[animate]
+    pub max_x: f32,
+    pub x: f32,
+}
+
+pub fn run_marked_remote_and_substr(ops: &[(Op, Fault)], variant: u64) -> Option<String> {
+    // marked remote proxy: only `x` is animated; `size` and `between` are listed but excluded
+    let initial = Panel { before: 5, x: 1.0, between: 2.5, size: 10, after: -9 };
+    let foreign = Panel { before: 500, x: 40.0, between: -2.5, size: 700, after: 9000 };
+    let tl = TimelineBuilder::build(
+        PanelProxy::timeline()
+            .duration_seconds(1.0)
+            .reverse(variant & 1 == 1)
+            .keyframe(PanelProxy::keyframe_from(&foreign, 0.0))
+            .keyframe(PanelProxy::keyframe(1.0).x(7.0)),
+    );
+    for t in [0.0f32, 0.4, 1.0, 1.6, 5.0] {
+        let mut v = initial.clone();
+        tl.update(&mut v, t);
+        if v.size != initial.size || v.between != initial.between || v.before != initial.before || v.after != initial.after {
+            return Some(format!(
+                "marked remote proxy: Timeline::update at t={t} changed an excluded field: size {} between {} before {} after {}",
+                v.size, v.between, v.before, v.after
+            ));
+        }
+    }
+    // substring names
+    let s0 = Substr { width: 1.0, id: 5, max_x: 2.0, x: 3.0 };
+    let sf = Substr { width: 100.0, id: 254, max_x: 200.0, x: -300.0 };
+    let mut anim = StateAnimatorBuilder::new()
+        .from_state(Sh::C)
+        .from_values(s0.clone())
+        .on(
+            Sh::A,
+            Substr::timeline()
+                .duration_seconds(1.5)
+                .keyframe(Substr::keyframe_from(&sf, 0.0))
+                .keyframe(Substr::keyframe_from(&s0, 1.0)),
+        )
+        .build();
+    for (i, (op, _)) in ops.iter().enumerate() {
+        match op {
+            Op::Advance(dt) => anim.advance(*dt),
+            Op::SetState(s) => anim.set_state(&SH[*s as usize % 3]),
+        }
+        let v = anim.current_values();
+        if v.id != s0.id || v.x != s0.x {
+            return Some(format!(
+                "shape Substr: operation {i} ({op:?}) changed an excluded field whose name is a substring of a marked one: id {} x {}",
+                v.id, v.x
+            ));
+        }
+    }
+    None
+}
+
+pub const SHAPE_NAMES: [&str; 9] = [
     "OneOfThree", "OneOfTwo", "TwoOfThree", "ThreeOfFive", "Documented", "Mixed", "RemoteProxy", "Lone",
+    "MarkedRemoteAndSubstr",
 ];
 
 pub fn run_shape(which: usize, ops: &[(Op, Fault)], variant: u64) -> Option<String> {
-    match which % 8 {
+    match which % 9 {
         0 => run_one_of_three(ops, variant),
         1 => run_one_of_two(ops, variant),
         2 => run_two_of_three(ops, variant),
@@ -373,7 +463,8 @@ pub fn run_shape(which: usize, ops: &[(Op, Fault)], variant: u64) -> Option<Stri
         4 => run_documented(ops, variant),
         5 => run_mixed(ops, variant),
         6 => run_remote(ops, variant),
-        _ => run_lone(ops, variant),
+        7 => run_lone(ops, variant),
+        _ => run_marked_remote_and_substr(ops, variant),
     }
 }
 
